@@ -49,7 +49,7 @@ def gen_dag(rng, kinds=None, max_comps=5, pull_comps=True, offsets=True, max_cha
             if comps[a]["kind"] == "pull":
                 # a pull-only source must not be followed by push-based adapters; delay adapters use the
                 # metadata time of a time-stepped producer
-                chain = [c for c in chain if c[0] == "scale"]
+                chain = [c for c in chain if c[0] in ("scale", "dfix")]
             links.append({"src": a, "out": out, "dst": b, "ads": chain})
     # pull components need at least one input and one consumer
     for i, c in enumerate(comps):
